@@ -1,7 +1,9 @@
 package combat
 
 import (
+	"maps"
 	"math/rand"
+	"slices"
 
 	"github.com/simimpact/srsim/pkg/engine/info"
 	"github.com/simimpact/srsim/pkg/engine/prop"
@@ -11,7 +13,8 @@ import (
 func baseDamage(h *info.Hit) float64 {
 	dmgMap := h.BaseDamage
 	damage := 0.0
-	for k, v := range dmgMap {
+	for _, k := range slices.Sorted(maps.Keys(dmgMap)) { // fixed summation order
+		v := dmgMap[k]
 		switch k {
 		case model.DamageFormula_BY_ATK:
 			damage += v * h.Attacker.ATK()
